@@ -278,17 +278,33 @@ Proof.
     apply In_nth_error in Hc. destruct Hc as [i' N']. exists i', c. split; auto.
 Qed.
 
-Lemma InvC_empty m : InvC g aempty m.
+(* a map that carries no distance on any node of the table (fresh graph, or after the reset) *)
+Definition blank (lv : amap) : Prop := forall s i, s < length g -> lv s i = None.
+
+Lemma InvC_blank lv m : blank lv -> InvC g lv m.
 Proof.
   destruct W as [[IO OO] NR NE RE RI R0].
-  intros [D R]. exfalso. destruct (is_all g m).
+  intros B [D R]. exfalso. pose proof (is_dec_lt _ _ D) as L. destruct (is_all g m).
   - destruct (outs_of g m) as [|o os] eqn:O; [apply (NE m D O)|].
-    apply (R 0 o); reflexivity.
-  - destruct R as (i & t & N & F). apply F. reflexivity.
+    apply (R 0 o); [reflexivity|apply B; exact L].
+  - destruct R as (i & t & N & F). apply F. apply B. exact L.
 Qed.
 
-Lemma sound_empty : sound g aempty.
-Proof. intros s i t N F. exfalso. apply F. reflexivity. Qed.
+Lemma sound_blank lv : blank lv -> sound g lv.
+Proof.
+  intros B s i t N F. exfalso. apply F. apply B.
+  destruct (Nat.lt_ge_cases s (length g)) as [L|L]; auto.
+  unfold outs_of in N. rewrite getn_out in N by exact L. destruct i; discriminate.
+Qed.
+
+Lemma blank_empty : blank aempty.
+Proof. intros s i _. reflexivity. Qed.
+
+Lemma blank_reset its lv : (forall x, x < length g -> In x its) -> blank (areset its lv).
+Proof.
+  intros H s i L. unfold areset. destruct (mem s its) eqn:M; auto.
+  apply H in L. apply mem_In in L. congruence.
+Qed.
 
 Lemma ab_fold_spec fuel : forall leaves lv0 lv1,
   foldM (fun lv l => ab fuel g lv l 0) leaves lv0 = Ok lv1 ->
@@ -314,22 +330,28 @@ Proof.
     + intros l' [<-|Hl]; auto. eapply ins_fin_mono; eauto.
 Qed.
 
-Theorem analyse_spec fuel lr0 a :
-  analyse V fuel g root lr0 aempty = Ok a ->
+Theorem analyse_spec fuel lr0 lv0 a :
+  (fix_reset V = true \/ blank lv0) ->
+  analyse V fuel g root lr0 lv0 = Ok a ->
   sound g (a_lv a) /\ complete g (a_lv a) /\
   (forall x, In x (a_valid a ++ a_invalid a) -> reach g root x /\ is_leaf g x = true) /\
   (forall x, x < length g -> is_leaf g x = true -> In x (a_valid a ++ a_invalid a)).
 Proof.
   pose proof W as W'. destruct W' as [[IO OO] NR NE RE RI R0].
-  unfold analyse. intros H.
+  unfold analyse. intros HB H.
   destruct (items fuel g root) as [its| | |] eqn:I; simpl in H; try discriminate.
-  destruct (af V fuel g lr0 root 0) as [lr| | |] eqn:A; simpl in H; try discriminate.
-  destruct (foldM _ _ aempty) as [lv| | |] eqn:F; simpl in H; try discriminate.
+  set (lv1 := if fix_reset V then areset its lv0 else lv0) in *.
+  assert (B1 : blank lv1).
+  { unfold lv1. destruct (fix_reset V).
+    - apply blank_reset. intros x Lx. eapply items_complete; eauto.
+    - destruct HB as [HB|HB]; [discriminate|exact HB]. }
+  destruct (af V fuel g _ root 0) as [lr| | |] eqn:A; simpl in H; try discriminate.
+  destruct (foldM _ _ lv1) as [lv| | |] eqn:F; simpl in H; try discriminate.
   inversion H; subst a; simpl. clear H.
   destruct (ab_fold_spec fuel _ _ _ F) as (S1 & I1 & M1 & F1).
   { intros l Hl. apply filter_In in Hl. tauto. }
-  { apply sound_empty. }
-  { apply InvC_empty. }
+  { apply sound_blank. exact B1. }
+  { intros m. apply InvC_blank. exact B1. }
   split; auto. split; [|split].
   - apply complete_of_inv; auto. intros l Ll Vl. apply F1. apply filter_In. split; auto.
     eapply items_complete; eauto.
